@@ -271,9 +271,17 @@ fn collect_field<'a>(
 
                 let field_value = match field_future {
                     FieldFuture::Value(field_value) => field_value,
-                    FieldFuture::Future(future) => future
-                        .await
-                        .map_err(|err| err.into_server_error(field.pos))?,
+                    FieldFuture::Future(future) => match future.await {
+                        Ok(field_value) => field_value,
+                        Err(err) => {
+                            let err = ctx_field.set_error_path(err.into_server_error(field.pos));
+                            if field_def.ty.is_nullable() {
+                                ctx_field.add_error(err);
+                                return Ok(None);
+                            }
+                            return Err(err);
+                        }
+                    },
                 };
 
                 let value =
@@ -419,6 +427,28 @@ pub(crate) fn resolve<'a>(
     value: Option<&'a FieldValue>,
 ) -> BoxFuture<'a, ServerResult<Option<Value>>> {
     async move {
+        if matches!(type_ref, TypeRef::NonNull(_)) {
+            return resolve_non_null(schema, ctx, type_ref, value).await;
+        }
+        // A field error at a nullable position nulls that position only.
+        match resolve_non_null(schema, ctx, type_ref, value).await {
+            Ok(value) => Ok(value),
+            Err(err) => {
+                ctx.add_error(err);
+                Ok(None)
+            }
+        }
+    }
+    .boxed()
+}
+
+fn resolve_non_null<'a>(
+    schema: &'a Schema,
+    ctx: &'a Context<'a>,
+    type_ref: &'a TypeRef,
+    value: Option<&'a FieldValue>,
+) -> BoxFuture<'a, ServerResult<Option<Value>>> {
+    async move {
         match (type_ref, value) {
             (TypeRef::Named(type_name), Some(value)) => {
                 resolve_value(schema, ctx, &schema.0.types[type_name.as_ref()], value).await
@@ -426,7 +456,7 @@ pub(crate) fn resolve<'a>(
             (TypeRef::Named(_), None) => Ok(None),
 
             (TypeRef::NonNull(type_ref), Some(value)) => {
-                resolve(schema, ctx, type_ref, Some(value)).await
+                resolve_non_null(schema, ctx, type_ref, Some(value)).await
             }
             (TypeRef::NonNull(_), None) => Err(ctx.set_error_path(
                 Error::new("internal: non-null types require a return value")
